@@ -27,7 +27,8 @@ def setup(symbolic):
 
 def bounds(tier):
     if tier == 'quick':
-        return {'histories': 'all sequences of length <= 3 over codes {A,S,K,U} x 4 qualifiers, thread ids free 64-bit '
+        return {'histories': 'all sequences of length <= 3 over codes {A,S,K,U} (+P up to length 2) x 4 qualifiers, and all '
+                             'START/END sequences of length 4 and 5 over one code, thread ids free 64-bit '
                              '(every equality pattern), payload words and timestamps free',
                 'one-step': 'pre-states built from per-thread sequences of <= 2 events on <= 2 threads, then one event of any '
                             'code/qualifier with a free thread id; post-state compared with the specification'}
@@ -46,7 +47,10 @@ def structures(tier):
             sts.append({'kind': 'history', 'h': [list(x) for x in h]})
     if tier == 'quick':
         for n in (1, 2, 3):
-            hist('ASKU' if n < 3 else 'ASK', n)
+            hist('ASKPU' if n < 3 else 'ASK', n)
+        hist('A', 4, [1, 2])
+        hist('A', 5, [1, 2])
+        hist('AP', 3, [0, 1, 2])
         pre_alpha, pre_len = 'AS', 2
     else:
         for n in (1, 2, 3):
@@ -62,7 +66,7 @@ def structures(tier):
         for h in itertools.product(letters, repeat=n):
             if h[0][1] == 1:
                 seqs.append([list(x) for x in h])
-    step_letters = [(c, q) for c in ('ASKU' if tier == 'quick' else 'ABSKPU') for q in quals]
+    step_letters = [(c, q) for c in ('ASKPU' if tier == 'quick' else 'ABSKPU') for q in quals]
     for s1 in seqs:
         for e in step_letters:
             sts.append({'kind': 'step', 'pre': [s1], 'e': list(e)})
